@@ -8,6 +8,7 @@ import RSVerif.Proofs.Hom
 import RSVerif.Proofs.Layout
 import RSVerif.Proofs.RestoredBasic
 import RSVerif.Proofs.BlocksSpec
+import RSVerif.Proofs.FlatSpec
 
 namespace RS
 
@@ -84,5 +85,25 @@ theorem blocks_expose (sb : Nat) (hsb : sb % 2 = 0) (s s' old : BShard) (hsz : s
 theorem blocks_lanewise (f : Sym → Sym) (x y : BShard) (l : Nat) (hl : l < 32 * x.size) :
     bLane (bXor x y) l = bLane x l ^^^ bLane y l ∧ bLane (bMul f x) l = f (bLane x l) :=
   ⟨bLane_bXor x y l hl, bLane_bMul f x l hl⟩
+
+/-- the codecs run on BLOCK memory (shards of `n` 64-byte blocks, xor bytewise, multiply on the 32
+    (low byte, high byte) pairs of every block — stale tail lanes included) are, lane by lane, the codecs
+    of the lane model: every theorem stated on lanes holds for the block memory -/
+theorem block_memory_codec (n : Nat) (s : Sched) (lw : Array Nat) (k r : Nat) (recv : Nat → Bool)
+    (mem : Array (BVec n)) :
+    (encodeHigh s k r mem).map (bvecLanes n) = encodeHigh s k r (mem.map (bvecLanes n)) ∧
+    (encodeLow s k r mem).map (bvecLanes n) = encodeLow s k r (mem.map (bvecLanes n)) ∧
+    (decodeHigh s lw k r recv mem).map (bvecLanes n) = decodeHigh s lw k r recv (mem.map (bvecLanes n)) ∧
+    (decodeLow s lw k r recv mem).map (bvecLanes n) = decodeLow s lw k r recv (mem.map (bvecLanes n)) :=
+  ⟨encodeHigh_blocks n s k r mem, encodeLow_blocks n s k r mem,
+   decodeHigh_blocks n s lw k r recv mem, decodeLow_blocks n s lw k r recv mem⟩
+
+/-- `Shards::resize` keeps old bytes: block `k` of shard `p` after a resize is whatever the flat vector
+    held at `p·n + k` before (stale data of an earlier, differently shaped round), zero only beyond the
+    old length — the memory every `∀ stale` theorem quantifies over -/
+theorem resize_keeps_stale_blocks (f : Flat) (c n p k : Nat) (hp : p < c) (hk : k < n) :
+    (rd ((f.resize c n).absAt n) p)[k] =
+      if p * n + k < f.data.size then f.data.getD (p * n + k) zeroBlock else zeroBlock :=
+  Flat.resize_abs_prefix f c n p k hp hk
 
 end RS
